@@ -149,27 +149,33 @@ Theorem split_vars_spec (n_row n_col : nat) (labels : list nat) :
 Proof. exact (split_vars_pf n_row n_col labels). Qed.
 Print Assumptions split_vars_spec.
 
-(** PropagationClustering after Propagation.fit: compaction (and split), whatever sort_clusters is. *)
-Theorem propagation_labels_spec (sort_clusters bipartite : bool) (n_row : nat) (raw : list Z) :
-  let all := snd (unique_inverse raw) in
+(** PropagationClustering after Propagation.fit: compaction, then reindex_labels under sort_clusters
+    (since /repo 350bc655), then the split: same partition, labels exactly 0..k-1, and with
+    sort_clusters sizes non-increasing in the label. *)
+Theorem propagation_labels_spec argsort (sort_clusters bipartite : bool) (n_row : nat) (raw : list Z) :
+  (sort_clusters = true ->
+   let keys := map (fun c => (- Z.of_nat c)%Z) (unique_counts (map Z.of_nat (snd (unique_inverse raw)))) in
+   argsort_ok keys (argsort keys)) ->
+  let all := propagation_all argsort sort_clusters raw in
   let k := length (nodup Z.eq_dec raw) in
   length all = length raw /\
   (forall i j, i < length raw -> j < length raw -> (nthn all i = nthn all j <-> nthz raw i = nthz raw j)) /\
   (forall c, In c all <-> c < k) /\
-  propagation_labels sort_clusters bipartite n_row raw =
+  (sort_clusters = true ->
+   forall a b, a <= b -> b < k -> count_occ Nat.eq_dec all b <= count_occ Nat.eq_dec all a) /\
+  propagation_labels argsort sort_clusters bipartite n_row raw =
     if bipartite then (firstn n_row all, Some (firstn n_row all, skipn n_row all)) else (all, None).
-Proof. exact (propagation_labels_pf sort_clusters bipartite n_row raw). Qed.
+Proof. exact (propagation_labels_pf argsort sort_clusters bipartite n_row raw). Qed.
 Print Assumptions propagation_labels_spec.
 
-(** Defect (current tree): PropagationClustering.fit never reads sort_clusters, so the size ordering
-    the property demands "with sort_clusters" fails for it.  The positive statement above therefore
-    makes no claim on sizes; this lemma shows that the omission is necessary. *)
-Theorem propagation_sort_clusters_refuted :
+(** LEGACY, repaired by /repo 350bc655: the model of the old fit (which never read sort_clusters)
+    violates the size order.  Kept so that the defect's return is recognised by name. *)
+Theorem legacy_propagation_sort_clusters_refuted :
   exists raw : list Z,
-    let out := fst (propagation_labels true false 0 raw) in
+    let out := fst (legacy_propagation_labels true false 0 raw) in
     ~ (forall a b, a <= b -> b < 2 -> count_occ Nat.eq_dec out b <= count_occ Nat.eq_dec out a).
-Proof. exact propagation_sort_clusters_refuted_pf. Qed.
-Print Assumptions propagation_sort_clusters_refuted.
+Proof. exact legacy_propagation_sort_clusters_refuted_pf. Qed.
+Print Assumptions legacy_propagation_sort_clusters_refuted.
 
 (** 7. KCenters, for EVERY random-choice stream within np.random.choice's contract (the draw is an
     element of the array it is given), every PageRank answer, every classifier score matrix and every
